@@ -104,6 +104,18 @@ func runC13(r *mc.Run) {
 	// values
 	base := platWith(nil)
 	add("values/distinct", base, world.SGXExtension(base), wantExact)
+	// the criticality flags of the certificate's extensions (of the SGX one, of each other one, of all) say nothing
+	// about the values inside
+	for mask := 1; mask < 64; mask++ {
+		if mask != 32 && mask != 63 && mask&(mask-1) != 0 {
+			continue
+		}
+		ex := sixExts(world.SGXExtension(base))
+		for k := range ex {
+			ex[k].Critical = mask&(1<<uint(k)) != 0
+		}
+		cases = append(cases, c13case{id: fmt.Sprintf("critical-flags/%06b", mask), exts: ex, plat: base, want: wantExact})
+	}
 	for i := 0; i < 16; i++ {
 		for _, v := range []byte{0, 1, 127, 128, 255} {
 			i, v := i, v
